@@ -328,6 +328,7 @@ private:
       "Internal error: received a null example pointer. Please file a bug.");
 
     RLBOX_ACQUIRE_SHARED_GUARD(lock, sandbox_list_lock);
+    RLBOX_VERIF_SHARED(&sandbox_list, 0);
     for (auto sandbox_v : sandbox_list) {
       auto sandbox = reinterpret_cast<rlbox_sandbox<T_Sbx>*>(sandbox_v);
       if (sandbox->is_pointer_in_sandbox_memory(example_sandbox_ptr)) {
@@ -410,6 +411,7 @@ public:
     if (created) {
       sandbox_created.store(Sandbox_Status::CREATED);
       RLBOX_ACQUIRE_UNIQUE_GUARD(lock, sandbox_list_lock);
+      RLBOX_VERIF_SHARED(&sandbox_list, 1);
       sandbox_list.push_back(this);
     }
 
@@ -438,6 +440,7 @@ public:
 
     {
       RLBOX_ACQUIRE_UNIQUE_GUARD(lock, sandbox_list_lock);
+      RLBOX_VERIF_SHARED(&sandbox_list, 1);
       auto el_ref = std::find(sandbox_list.begin(), sandbox_list.end(), this);
       detail::dynamic_check(
         el_ref != sandbox_list.end(),
